@@ -17,20 +17,16 @@ Proof. intros s i H. unfold s_get. apply unstored_reads_zero_l, H. Qed.
 Definition all_dense : nat -> bool := fun _ => false.
 Definition reg0_sparse : nat -> bool := fun r => (r =? 0)%nat.
 
-(* linear_combine_lax(y, 0, c2, 0, 3) with x sparse and y dense stores explicit zeroes in x:
-   all_zeroes(1,3) answers false on the sparse expression, true on the dense one *)
+(* linear_combine_lax(y, 0, c2, 0, 3) with x sparse and y dense: the former counterexample now agrees *)
 Definition lax_witness : list op :=
   [New 0 3; New 1 3; Un 1 (USet 0 2); Bin 0 1 (BLax0 3 0 3); Obs1 0 (OAllZeroes 1 3)].
-Lemma lax_mixed_refuted_l : outputs reg0_sparse lax_witness <> outputs all_dense lax_witness.
-Proof. vm_compute. discriminate. Qed.
-Lemma lax_witness_unsafe : unsafe reg0_sparse lax_witness = true.
-Proof. vm_compute. reflexivity. Qed.
+Lemma lax_witness_agrees : outputs reg0_sparse lax_witness = outputs all_dense lax_witness
+                           /\ unsafe reg0_sparse lax_witness = false.
+Proof. vm_compute. split; reflexivity. Qed.
 
-(* Linear_Expression(e, space_dim, SPARSE) from a dense e with space_dim smaller than e's keeps the
-   coefficients beyond the new size: last_nonzero() answers an index outside the expression *)
+(* Linear_Expression(e, space_dim, SPARSE) from a longer dense e: the former counterexample now agrees *)
 Definition trunc_witness : list op :=
   [New 1 5; Un 1 (USet 4 6); CopySized 0 1 3; Obs1 0 OLastNZAll].
-Lemma trunc_copy_refuted_l : outputs reg0_sparse trunc_witness <> outputs all_dense trunc_witness.
-Proof. vm_compute. discriminate. Qed.
-Lemma trunc_witness_unsafe : unsafe reg0_sparse trunc_witness = true.
-Proof. vm_compute. reflexivity. Qed.
+Lemma trunc_witness_agrees : outputs reg0_sparse trunc_witness = outputs all_dense trunc_witness
+                             /\ unsafe reg0_sparse trunc_witness = false.
+Proof. vm_compute. split; reflexivity. Qed.
